@@ -127,11 +127,11 @@ def callOutcome (r : Res) : Res :=
   | other => other
 
 theorem invokeStep_call_eq (fr : Frame) (body : Body) (callee : CofCfg → Body) (s s1 : St) (c : CofCfg)
-    (hb : body s = (s1, .call c)) :
+    (hb : body s = (s1, .call c)) (hco : c.original.truthy = true) :
     invokeStep fr body callee s = (resetCounters fr c (callee c s1).1, callOutcome (callee c s1).2) := by
   unfold invokeStep
   rw [hb]
-  simp only []
+  simp only [hco, if_true]
   generalize callee c s1 = p
   obtain ⟨s2, r⟩ := p
   cases r <;> rfl
@@ -168,6 +168,10 @@ theorem cofStep_instr (key : String) (isCall : Bool) (s s1 : St) (r : Res)
     ∃ c, r = (if isCall then .call c else .jump c) ∧ c.key = key ∧
       Ctx.get? s.ctx key = some c.original ∧ c.original ≠ .none ∧ s1 = s := by
   unfold cofStep at h
+  split at h
+  · -- `assert context`: an empty context
+    have := raiseNew_isErr s "AssertionError" "context param must exist for ControlOfFlowStep."
+    rw [h] at this; simp [hr] at this
   split at h
   · rename_i n m _
     have := raiseNew_isErr s n m
@@ -229,7 +233,7 @@ theorem invokeLayer_passesOk (body : Body) (callee : CofCfg → Body) :
     iteration has ended normally, `i` is `x` again and the call key holds `v` again — whatever
     the callee did to them. -/
 theorem call_iteration (fr : Frame) (layer : Frame → Body) (body : Body) (callee : CofCfg → Body)
-    (hlayer : PassesOk layer body callee) (K : String) (v : Val)
+    (hlayer : PassesOk layer body callee) (K : String) (v : Val) (hvt : v.truthy = true)
     (hK : K ≠ "i")
     (hb : ∀ s, Ctx.get? s.ctx K = some v → ∃ c, body s = (s, .call c) ∧ c.key = K ∧ c.original = v)
     (hc : ∀ c s, (callee c s).2 = .ok)
@@ -246,7 +250,7 @@ theorem call_iteration (fr : Frame) (layer : Frame → Body) (body : Body) (call
   obtain ⟨c, hbc, hck, hco⟩ := hb _ hK'
   have hinv : invokeStep { fr with forI := some x } body callee (setI x s0) =
       (resetCounters { fr with forI := some x } c (callee c (setI x s0)).1, .ok) := by
-    rw [invokeStep_call_eq _ body callee _ _ c hbc, hc]
+    rw [invokeStep_call_eq _ body callee _ _ c hbc (by rw [hco]; exact hvt), hc]
     rfl
   have hout : itemOut fr layer x s0 =
       (resetCounters { fr with forI := some x } c (callee c (setI x s0)).1, .ok) := by
@@ -263,7 +267,7 @@ theorem call_iteration (fr : Frame) (layer : Frame → Body) (body : Body) (call
 /-- All iterations, any number of items: every one ends normally (so the loop is the left fold),
     and the call key is `v` again after the loop. -/
 theorem call_foreach_allOk (fr : Frame) (layer : Frame → Body) (body : Body) (callee : CofCfg → Body)
-    (hlayer : PassesOk layer body callee) (K : String) (v : Val)
+    (hlayer : PassesOk layer body callee) (K : String) (v : Val) (hvt : v.truthy = true)
     (hK : K ≠ "i")
     (hb : ∀ s, Ctx.get? s.ctx K = some v → ∃ c, body s = (s, .call c) ∧ c.key = K ∧ c.original = v)
     (hc : ∀ c s, (callee c s).2 = .ok) :
@@ -275,9 +279,66 @@ theorem call_foreach_allOk (fr : Frame) (layer : Frame → Body) (body : Body) (
   | nil => intro s h0; exact ⟨trivial, h0⟩
   | cons x rest ih =>
     intro s h0
-    obtain ⟨c, _, _, hout, _, hKv⟩ := call_iteration fr layer body callee hlayer K v hK hb hc x s h0
+    obtain ⟨c, _, _, hout, _, hKv⟩ := call_iteration fr layer body callee hlayer K v hvt hK hb hc x s h0
     obtain ⟨h1, h2⟩ := ih _ hKv
     exact ⟨⟨by rw [hout], h1⟩, h2⟩
+
+/-! ### the same with hypotheses on the VISITED states only -/
+
+/-- what the iterations of a call step under `foreach` need, stated on the states the loop actually visits
+    (each iteration entered in the state the previous one left): there the step body raises its call - with
+    key `K` and raw configuration `v`, but possibly DIFFERENT groups each time (`call: 'g{i}'`: the formatted
+    instruction depends on the current item) - and the called groups end normally. -/
+def CallVisitOk (fr : Frame) (layer : Frame → Body) (body : Body) (callee : CofCfg → Body) (K : String) (v : Val) :
+    List Val → St → Prop
+  | [], _ => True
+  | x :: rest, s =>
+    (∃ c, body (setI x s) = (setI x s, .call c) ∧ c.key = K ∧ c.original = v ∧ (callee c (setI x s)).2 = .ok) ∧
+    CallVisitOk fr layer body callee K v rest (itemOut fr layer x s).1
+
+/-- one iteration, from the facts at that iteration's own entry state. -/
+theorem call_iteration_at (fr : Frame) (layer : Frame → Body) (body : Body) (callee : CofCfg → Body)
+    (hlayer : PassesOk layer body callee) (K : String) (v : Val) (hvt : v.truthy = true) (hK : K ≠ "i")
+    (x : Val) (s0 : St) (c : CofCfg)
+    (hbc : body (setI x s0) = (setI x s0, .call c)) (hck : c.key = K) (hco : c.original = v)
+    (hc : (callee c (setI x s0)).2 = .ok) :
+    itemOut fr layer x s0 =
+      (resetCounters { fr with forI := some x } c (callee c (setI x s0)).1, .ok) ∧
+    Ctx.get? (itemOut fr layer x s0).1.ctx "i" = some x ∧
+    Ctx.get? (itemOut fr layer x s0).1.ctx K = some v := by
+  have hinv : invokeStep { fr with forI := some x } body callee (setI x s0) =
+      (resetCounters { fr with forI := some x } c (callee c (setI x s0)).1, .ok) := by
+    rw [invokeStep_call_eq _ body callee _ _ c hbc (by rw [hco]; exact hvt), hc]
+    rfl
+  have hout : itemOut fr layer x s0 =
+      (resetCounters { fr with forI := some x } c (callee c (setI x s0)).1, .ok) := by
+    show layer { fr with forI := some x } (setI x s0) = _
+    rw [hlayer _ _ (by rw [hinv]), hinv]
+  refine ⟨hout, ?_, ?_⟩
+  · rw [hout]
+    exact (resetCounters_restores { fr with forI := some x } c _).2.1 x rfl (by rw [hck]; exact hK)
+  · rw [hout]
+    have := (resetCounters_restores { fr with forI := some x } c (callee c (setI x s0)).1).2.2.2
+    rw [hck, hco] at this
+    exact this
+
+theorem call_foreach_allOk_at (fr : Frame) (layer : Frame → Body) (body : Body) (callee : CofCfg → Body)
+    (hlayer : PassesOk layer body callee) (K : String) (v : Val) (hvt : v.truthy = true) (hK : K ≠ "i") :
+    ∀ (items : List Val) (s : St), CallVisitOk fr layer body callee K v items s →
+      ForeachAllOk fr layer items s ∧
+      (items ≠ [] → Ctx.get? (foreachFold fr layer items s).ctx K = some v) := by
+  intro items
+  induction items with
+  | nil => intro s _; exact ⟨trivial, fun h => absurd rfl h⟩
+  | cons x rest ih =>
+    intro s hv
+    obtain ⟨⟨c, hbc, hck, hco, hc⟩, hrest⟩ := hv
+    obtain ⟨hout, _, hKv⟩ := call_iteration_at fr layer body callee hlayer K v hvt hK x s c hbc hck hco hc
+    obtain ⟨h1, h2⟩ := ih _ hrest
+    refine ⟨⟨by rw [hout], h1⟩, fun _ => ?_⟩
+    cases rest with
+    | nil => exact hKv
+    | cons y ys => exact h2 (by simp)
 
 /-! ### observable form: a callee that logs the `i` it sees -/
 
@@ -291,7 +352,7 @@ def logCallee (g : Ctx → Ctx) : CofCfg → Body := fun _ s =>
   ({ s with ctx := g s.ctx, trace := s.trace ++ [calleeEvent (Ctx.get? s.ctx "i")] }, .ok)
 
 theorem call_foreach_trace (g : Ctx → Ctx) (fr : Frame) (layer : Frame → Body) (body : Body)
-    (hlayer : PassesOk layer body (logCallee g)) (K : String) (v : Val)
+    (hlayer : PassesOk layer body (logCallee g)) (K : String) (v : Val) (hvt : v.truthy = true)
     (hK : K ≠ "i")
     (hb : ∀ s, Ctx.get? s.ctx K = some v → ∃ c, body s = (s, .call c) ∧ c.key = K ∧ c.original = v) :
     ∀ (items : List Val) (s : St), Ctx.get? s.ctx K = some v →
@@ -304,7 +365,7 @@ theorem call_foreach_trace (g : Ctx → Ctx) (fr : Frame) (layer : Frame → Bod
   | cons x rest ih =>
     intro s h0
     obtain ⟨c, _, hi, hout, _, hKv⟩ :=
-      call_iteration fr layer body (logCallee g) hlayer K v hK hb (fun _ _ => rfl) x s h0
+      call_iteration fr layer body (logCallee g) hlayer K v hvt hK hb (fun _ _ => rfl) x s h0
     have h2 : (itemOut fr layer x s).2 = .ok := by rw [hout]
     have h3 : (itemOut fr layer x s).1.trace = s.trace ++ [calleeEvent (some x)] := by
       rw [hout]
